@@ -399,3 +399,131 @@ pub fn ref_drivers<T: Scalar>(property: &str, spec: &Spec, drivers: &[Vec<f64>],
         }
     }
 }
+
+/// Steps (0-based) at which windows fill and slide and at which counters of the usual integer
+/// widths wrap: around K and 2K, around every power of two from 64 to 131072, around every
+/// multiple of 1024, the last three steps, and every `stride`-th step in between.
+pub fn boundary_steps(len: usize, k: usize, stride: usize) -> std::collections::BTreeSet<usize> {
+    let mut s = std::collections::BTreeSet::new();
+    let mut around = |c: usize, r: usize| {
+        for i in c.saturating_sub(r)..=c + r {
+            if i < len {
+                s.insert(i);
+            }
+        }
+    };
+    around(k.saturating_sub(1), 2);
+    around((2 * k).saturating_sub(1), 2);
+    for p in 6..=17 {
+        around((1usize << p) - 1, 2);
+        around((1usize << p) + k - 1, 1);
+    }
+    let mut m = 1024;
+    while m < len {
+        around(m - 1, 1);
+        m += 1024;
+    }
+    around(len.saturating_sub(2), 1);
+    let mut i = 0;
+    while i < len {
+        s.insert(i);
+        i += stride.max(1);
+    }
+    s
+}
+
+/// Integer-valued drivers of any length (sums stay exact in f64): a lone 2 followed by ones, a
+/// moving sawtooth with ties and evicted extremes, signed quadratic residues with zeros, and
+/// ramps separated by plateaus whose length follows the window.
+pub fn scale_drivers(len: usize, n: usize) -> Vec<(&'static str, Vec<f64>)> {
+    let seg = n.max(2) + 3;
+    vec![
+        ("2,1,1,1,...", (0..len).map(|i| if i == 0 { 2.0 } else { 1.0 }).collect()),
+        ("moving sawtooth", (0..len).map(|i| ((i % 7) + (i / 50) % 5) as f64).collect()),
+        ("quadratic residues mod 31, centred", (0..len).map(|i| ((i * i) % 31) as f64 - 15.0).collect()),
+        (
+            "ramp / plateau / descent, segments of N+3",
+            (0..len)
+                .map(|i| {
+                    let (q, r) = ((i / seg) % 4, i % seg);
+                    match q {
+                        0 => r as f64,
+                        1 => seg as f64,
+                        2 => (seg - r) as f64,
+                        _ => if r % 2 == 0 { 0.0 } else { -1.0 },
+                    }
+                })
+                .collect(),
+        ),
+    ]
+}
+
+/// Run the real view along every driver, updating at every step but consulting the oracle only at
+/// the steps in `at` (the oracle recomputes the definition from the history, O(N) or worse): long
+/// runs (behaviour keyed on update counts far beyond any TREE), wide and huge windows (behaviour
+/// keyed on the window length exceeding an integer width).
+pub fn ref_drivers_sparse<T: Scalar>(property: &str, spec: &Spec, drivers: &[(&'static str, Vec<f64>)], at: &std::collections::BTreeSet<usize>, st: &mut Stats, sink: &Sink, oracle: &Oracle<T>) {
+    st.configs += 1;
+    for (_, hist) in drivers {
+        T::reset_arena();
+        let c0 = T::inexact();
+        let Some(v) = build_or_report::<T>(property, spec, sink) else { return };
+        let mut s = RefState { v, tainted: T::inexact() > c0 };
+        let mut ht: Vec<T> = Vec::with_capacity(hist.len());
+        for i in 0..hist.len() {
+            let c0 = T::inexact();
+            let x = T::of(hist[i]);
+            ht.push(x);
+            if let Err(m) = crate::explore::guard(|| s.v.update(x)) {
+                sink.push(panic_violation(property, spec, T::NAME, &hist[..=i], m));
+                return;
+            }
+            st.transitions += 1;
+            if !at.contains(&i) {
+                if T::inexact() > c0 {
+                    s.tainted = true;
+                }
+                continue;
+            }
+            let mut cmps = vec![];
+            if let Err(m) = crate::explore::guard(|| oracle(&ht, &hist[..=i], &s.v, &mut cmps)) {
+                sink.push(panic_violation(property, spec, T::NAME, &hist[..=i], m));
+                return;
+            }
+            if T::inexact() > c0 {
+                s.tainted = true;
+            }
+            for c in cmps {
+                st.oracle_evals += 1;
+                st.out(c.got.map(|g| g.f()));
+                if !agrees(c.got, c.want, c.tol, s.tainted) && !c.alt.iter().any(|w| agrees(c.got, *w, c.tol, s.tainted)) {
+                    sink.push(
+                        Violation::new(property, spec, c.clause, T::NAME, &hist[..=i], format!("{}: after {} updates the implementation reports {} but the definition gives {}", c.clause, i + 1, show(c.got), show(c.want))).tags(&c.tags),
+                    );
+                    return;
+                }
+            }
+        }
+        st.states += hist.len() as u64;
+        st.traces += 1;
+    }
+}
+
+/// the three scale families shared by the definition checks: (label, N, run length, judged steps)
+pub fn scale_families(k_of: &dyn Fn(usize) -> usize, quick: bool, cheap_update: bool, quadratic: bool) -> Vec<(&'static str, usize, usize, std::collections::BTreeSet<usize>)> {
+    let mut v = vec![];
+    // long: a small window run past 2^16 updates
+    let (n, len) = (5usize, if quadratic { 66_000 } else { 66_000 });
+    v.push(("long run", n, len, boundary_steps(len, k_of(n), if quick { 499 } else { 61 })));
+    // wide: a window beyond 2^8
+    let n = if quadratic { 260 } else { 300 };
+    let len = 2 * k_of(n) + 8;
+    v.push(("wide window", n, len, boundary_steps(len, k_of(n), if quadratic { 97 } else if quick { 29 } else { 5 })));
+    // huge: a window beyond 2^16, only where one update costs O(1)
+    if cheap_update {
+        let n = 70_000;
+        let len = 2 * k_of(n) + 8;
+        v.push(("huge window", n, len, boundary_steps(len, k_of(n), if quick { 50_021 } else { 9_973 })));
+    }
+    v
+}
